@@ -66,6 +66,7 @@ BOUNDS = {
                      "patterns": ["all distinct", "first two identical", "last two identical", "first and last identical", "all identical"]},
         "densify": {"n": [0, 4]},
         "metric": {"alphabet": [-1.5, 0.0, 2.0], "length": [1, 3], "near_identical": "vectors over [-1.5, 0.3, 2.0, 40.0], length 1..3, every sign pattern of a relative perturbation 1e-7 / 1e-9 / 1e-11"},
+        "sparse_probe": "300 posterior samples in 300 chunks (149-150 entries each): chunks 0, 1, 150, 218, 299 computed, saved, loaded, every entry compared",
         "cli": {"n_thetas": 4, "n_chunks": [1, 3]},
     },
     "thorough": {
@@ -527,6 +528,44 @@ def check_densify(col, n, zero_values):
             densify_case(col, n, sub, zero_values)
 
 
+# ------------------------------------------------------------------ sparse probe: many posterior samples, many small chunks
+def run_assemble_sparse(col, n, n_chunks, chunk_ids):
+    """Far above the exhaustive range: n posterior samples (indices beyond 255), n_chunks so large that a chunk holds fewer
+    than 256 entries.  A few chunks are computed, saved and loaded; every entry must come back as it was computed and
+    be the metric of the two samples it names.  (A handful of chunks, not an assembly: stated as a probe in BOUNDS.)"""
+    groups = [i % len(VECS) for i in range(n)]
+    holder = holder_for(groups)
+    metric = make_metric("mse-raw")
+    tmp = env.scratch_dir("c07s")
+    try:
+        for ci in chunk_ids:
+            case = {"kind": "assemble-sparse", "n": n, "n_chunks": n_chunks, "chunk": ci}
+            col.evaluations += 1
+            col.states += 1
+            col.transitions += 2
+            m = DC.calculate_pairwise_distance_matrix_on_predictions(thetas=holder, distance_metric=metric, data=DATA, chunk_index=ci, n_chunks=n_chunks)
+            k = int(m.current_index)
+            before = list(zip(m.row_indices[:k].tolist(), m.col_indices[:k].tolist(), m.values[:k].tolist()))
+            fn = os.path.join(tmp, f"chunk_{ci}.h5")
+            m.save(fn)
+            back = DC.ChunkedDistanceMatrix.load(fn)
+            kb = int(back.current_index)
+            after = list(zip(np.asarray(back.row_indices[:kb]).tolist(), np.asarray(back.col_indices[:kb]).tolist(), np.asarray(back.values[:kb]).tolist()))
+            if sorted(after) != sorted(before):
+                diff = [(a, b) for a, b in zip(sorted(before), sorted(after)) if a != b][:2]
+                col.violation(f"{PROP}|sparse|save-load", f"{n} samples, chunk {ci} of {n_chunks} ({k} entries): after save/load the entries differ, e.g. {diff}", case)
+                continue
+            for i, j, v in after:
+                want = float(metric.distance(np.array(VECS[groups[i]], dtype=float), np.array(VECS[groups[j]], dtype=float)))
+                if not (i > j and close(v, want)):
+                    col.violation(f"{PROP}|sparse|wrong-entry", f"{n} samples, chunk {ci} of {n_chunks}: entry ({i},{j}) holds {v!r}, the metric gives {want!r}", case)
+                    break
+            col.outcome("sparse", n, n_chunks, ci, k)
+            col.nontriv("sparse", n, n_chunks, ci)
+    finally:
+        shutil.rmtree(tmp, ignore_errors=True)
+
+
 # ------------------------------------------------------------------ metric
 def metric_case(col, sigmoid, a, b):
     a, b = tuple(a), tuple(b)
@@ -735,6 +774,7 @@ def plan(tier, seed):
     # sparse probes far above the exhaustive range (production sizes: 100-1000 posterior samples, 50 chunks)
     items.append({"kind": "partition-sparse", "cases": [[33, c] for c in (1, 2, 7, 32, 33, 34, 50, 527, 528, 529)] +
                   [[100, c] for c in (1, 3, 50, 99, 100, 101, 4949, 4950, 4951)] + [[300, c] for c in (50, 299, 301)]})
+    items.append({"kind": "assemble-sparse", "n": 300, "n_chunks": 300, "chunks": [0, 1, 150, 218, 299]})
     items.append({"kind": "metric", "alphabet": t["alphabet"], "max_len": 3})
     items.append({"kind": "densify", "ns": list(range(0, t["dens_n"] + 1))})
     for n in range(0, t["asm_n"] + 1):
@@ -775,12 +815,17 @@ def run_item(item, col, tier):
         check_metric(col, item["alphabet"], item["max_len"])
     elif kind == "cli":
         run_cli(col, item["max_chunks"])
+    elif kind == "assemble-sparse":
+        run_assemble_sparse(col, item["n"], item["n_chunks"], item["chunks"])
     else:
         raise ValueError(kind)
 
 
 def replay(case, col):
     kind = case["kind"]
+    if kind == "assemble-sparse":
+        run_assemble_sparse(col, case["n"], case["n_chunks"], [case["chunk"]])
+        return
     if kind == "partition":
         check_partition(col, case["n"], case["n_chunks"])
     elif kind == "assemble":
